@@ -13,6 +13,9 @@ import Mathlib.Algebra.Order.Field.Basic
 import Mathlib.Data.List.Basic
 import Mathlib.Data.List.Range
 import Mathlib.Data.List.Perm.Basic
+import Mathlib.Data.Finset.Card
+import Mathlib.Data.Finset.Union
+import Mathlib.Data.List.Count
 import Mathlib.Tactic.NormNum
 
 namespace Pyiga.Knots
@@ -598,5 +601,119 @@ theorem sortL_sorted : ∀ l : List K, (sortL l).Pairwise (· ≤ ·) := by
   | cons x xs ih => unfold sortL; exact insertSorted_sorted x _ ih
 
 end Sorting
+
+
+/-! ## list ↔ accessor -/
+
+section Glue
+variable {K : Type} [LinearOrder K] [Zero K]
+
+/-- a non-decreasing list is non-decreasing through the accessor `getK` -/
+theorem getK_mono (kv : List K) (h : kv.Pairwise (· ≤ ·)) :
+    ∀ i j, i ≤ j → j < kv.length → getK kv i ≤ getK kv j := by
+  intro i j hij hj
+  have hi : i < kv.length := by omega
+  have ei : getK kv i = kv[i] := by simp [getK, List.getD_eq_getElem?_getD, hi]
+  have ej : getK kv j = kv[j] := by simp [getK, List.getD_eq_getElem?_getD, hj]
+  rw [ei, ej]
+  rcases Nat.lt_or_eq_of_le hij with hlt | heq
+  · exact List.pairwise_iff_getElem.mp h i j hi hj hlt
+  · subst heq; exact le_refl _
+
+end Glue
+
+/-! ## uniform refinement -/
+
+section Uniform
+variable {K : Type} [LinearOrder K]
+
+/-- for a non-decreasing list, `mesh` has as many entries as there are distinct values -/
+theorem meshAux_card : ∀ (xs : List K) (prev : K), (prev :: xs).Pairwise (· ≤ ·) →
+    (meshAux prev xs).length + 1 = (prev :: xs).toFinset.card := by
+  intro xs
+  induction xs with
+  | nil => intro prev _; simp [meshAux]
+  | cons x xs ih =>
+    intro prev h
+    have hpx : prev ≤ x := (List.pairwise_cons.mp h).1 x (by simp)
+    have htail : (x :: xs).Pairwise (· ≤ ·) := (List.pairwise_cons.mp h).2
+    have ihx := ih x htail
+    by_cases hx : x = prev
+    · subst hx
+      simp only [meshAux, if_true]
+      rw [ihx]
+      simp
+    · simp only [meshAux, hx, if_false, List.length_cons]
+      rw [ihx]
+      have hnot : prev ∉ (x :: xs).toFinset := by
+        intro hmem
+        have hmem' : prev ∈ x :: xs := List.mem_toFinset.mp hmem
+        rcases List.mem_cons.mp hmem' with e | e
+        · exact hx e.symm
+        · have h1 : x ≤ prev := (List.pairwise_cons.mp htail).1 prev e
+          exact hx (le_antisymm h1 hpx)
+      rw [List.toFinset_cons (a := prev), Finset.card_insert_of_notMem hnot]
+
+theorem mesh_card (l : List K) (h : l.Pairwise (· ≤ ·)) : (mesh l).length = l.toFinset.card := by
+  cases l with
+  | nil => simp [mesh]
+  | cons x xs => simpa [mesh] using meshAux_card xs x h
+
+end Uniform
+
+section UniformField
+variable {K : Type} [Field K] [LinearOrder K] [IsStrictOrderedRing K]
+
+/-- midpoints of a strictly increasing list: strictly increasing, one fewer, each strictly between
+its neighbours — in particular none of them is an element of the list -/
+theorem midpoints_props : ∀ (l : List K), l.Pairwise (· < ·) →
+    (midpoints l).length = l.length - 1 ∧ (midpoints l).Pairwise (· < ·) ∧
+    (∀ m ∈ midpoints l, m ∉ l) ∧ (∀ m ∈ midpoints l, ∀ a, l.head? = some a → a < m) := by
+  intro l
+  induction l with
+  | nil => intro _; simp [midpoints]
+  | cons a l ih =>
+    intro h
+    cases l with
+    | nil => simp [midpoints]
+    | cons b rest =>
+      have hab : a < b := (List.pairwise_cons.mp h).1 b (by simp)
+      have htail : (b :: rest).Pairwise (· < ·) := (List.pairwise_cons.mp h).2
+      obtain ⟨hl, hp, hnot, hhead⟩ := ih htail
+      have h2 : (0 : K) < 2 := by norm_num
+      have hm1 : a < (b + a) / ((2 : ℕ) : K) := by
+        rw [lt_div_iff₀ (by exact_mod_cast h2)]; push_cast; linarith
+      have hm2 : (b + a) / ((2 : ℕ) : K) < b := by
+        rw [div_lt_iff₀ (by exact_mod_cast h2)]; push_cast; linarith
+      have hmid : midpoints (a :: b :: rest) = (b + a) / ((2 : ℕ) : K) :: midpoints (b :: rest) := rfl
+      rw [hmid]
+      refine ⟨by simp [hl], ?_, ?_, ?_⟩
+      · refine List.pairwise_cons.mpr ⟨?_, hp⟩
+        intro m hm
+        exact lt_trans hm2 (hhead m hm b rfl)
+      · intro m hm
+        rcases List.mem_cons.mp hm with e | e
+        · rw [e]
+          intro hmem
+          rcases List.mem_cons.mp hmem with e1 | e1
+          · exact absurd e1 (ne_of_gt hm1)
+          · rcases List.mem_cons.mp e1 with e2 | e2
+            · exact absurd e2 (ne_of_lt hm2)
+            · have : b < (b + a) / ((2 : ℕ) : K) := (List.pairwise_cons.mp htail).1 _ e2
+              exact absurd (lt_trans this hm2) (lt_irrefl _)
+        · intro hmem
+          rcases List.mem_cons.mp hmem with e1 | e1
+          · have : b < m := hhead m e b rfl
+            rw [e1] at this
+            exact absurd (lt_trans hab this) (lt_irrefl _)
+          · exact hnot m e e1
+      · intro m hm a' ha'
+        have : a' = a := by simpa using ha'.symm
+        rw [this]
+        rcases List.mem_cons.mp hm with e | e
+        · rw [e]; exact hm1
+        · exact lt_trans hab (hhead m e b rfl)
+
+end UniformField
 
 end Pyiga.Knots
